@@ -75,7 +75,7 @@ def fanout(exe, seed, total, tier, outdir, budget_s, nworkers=None, extra=()):
 VALGRIND = ["valgrind", "-q", "--error-exitcode=88"]
 
 
-def exec_prog(exe, path, timeout=600, extra=(), wrapper=None):
+def exec_prog(exe, path, timeout=3600, extra=(), wrapper=None):
     """-> dict of the X line (without detail) or None.  Programs marked `# runner=valgrind` are executed under memcheck."""
     if wrapper is None:
         try:
@@ -301,6 +301,9 @@ def write_evidence(prop, tier, seed, level, coverage, assumptions, wall_s, viola
     if extra:
         ev.update(extra)
     d = os.path.join(VERIF, "evidence")
+    if os.path.realpath(os.environ.get("M4SIM_REPO", "/repo")) != "/repo":
+        # a run against a scratch copy of the library (sensitivity campaign, seeded changes): the committed evidence describes /repo only
+        d = os.path.join(VERIF, "replays", "evidence-of-scratch-tree")
     os.makedirs(d, exist_ok=True)
     with open(os.path.join(d, prop + ".json"), "w") as f:
         json.dump(ev, f, indent=1, sort_keys=True)
